@@ -113,7 +113,7 @@ def c12_cases(tier, rng):
             sends.append(mk_send(nid(), rng, size=size, important=rng.random() < 0.5, via=rng.choice(["pid", "name", "alias"])))
         add(sends, chunk=chunk, pool=rng.choice([1, 2, 3]))
     # random cases, two senders working concurrently
-    for _ in range(40 if tier == "quick" else 400):
+    for _ in range(40 if tier == "quick" else 1600):
         sends = []
         maxsize = rng.choice([0, 0, 0, 3000, 9000])
         for _ in range(rng.randint(4, 14)):
@@ -155,7 +155,7 @@ def c13_cases(tier, rng):
     add([st(n, rs(), 0), st(n, rs(), rs())], pool=3, delay="rotate")
     add([st(n, 5, rs()), st(n, 7, rs())], pool=3, delay="link0", grow=True)
     add([st(n, rs(), rs()), st(n, rs(), rs())], pool=3, delay="cut")
-    for _ in range(4 if tier == "quick" else 120):
+    for _ in range(4 if tier == "quick" else 400):
         k = rng.randint(1, 4)
         sts = []
         for _ in range(k):
